@@ -505,6 +505,9 @@ func (c *converter) createBackend(routeSource *source, index string, backendRefs
 		return nil, nil
 	}
 	habackend := c.haproxy.Backends().AcquireBackend(routeSource.namespace, routeSource.name, index)
+	// whatever makes this backend dirty needs a full sync: a partial one removes the
+	// backend and only the ingress converter, which knows nothing about it, runs
+	c.tracker.TrackNames(convtypes.ResourceHABackend, habackend.ID, convtypes.ResourceGateway, "gw")
 	cl := make([]*convutils.WeightCluster, len(backends))
 	for i := range backends {
 		cl[i] = &backends[i].cl
